@@ -97,7 +97,7 @@ def cli_route(ctx, model, rng):
     mksegy.make_segy(line2, gen.cube(rng, (1, 7, 9)), two_d=True, fmt=5)
     opts = [(b, bs) for b in (4, 1, 2, 8, 16, -2, -4, -1, 3, 0) for bs in (None, (4, 4, -1), (8, 8, -1), (-1, 4, 256), (4, 4, 512),
                                                                             (1, 16, -1), (1, -1, 512), (1, 64, 512))]
-    pick = [opts[i] for i in rng.choice(len(opts), size=14 if ctx.quick else len(opts), replace=False)]
+    pick = [opts[i] for i in rng.choice(len(opts), size=ctx.n(14, len(opts)), replace=False)]
     for bits, bs in pick:
         for is2d, src in ((False, cube3), (True, line2)):
             if bs is not None and (bs[0] == 1) != is2d:
@@ -172,7 +172,7 @@ def run(ctx):
     try:
         valid3 = spec.all_layouts_3d()
         valid2 = spec.all_layouts_2d(min_q=1)
-        conv_every = 7 if ctx.quick else 1
+        conv_every = ctx.n(7, 1)
         for k, (q, bs) in enumerate(valid3):
             for j, (r, b) in enumerate(presentations(q, bs)):
                 check(r, b, False, must_accept=f'ok {q} {bs[0]} {bs[1]} {bs[2]}', convert=(j == 0 and k % conv_every == ctx.seed % conv_every))
@@ -201,7 +201,7 @@ def run(ctx):
                 b[2] = -1
                 check(r, b, is2d, convert=True)
         # the rest of the grid, sampled
-        for _ in range(1500 if ctx.quick else 300000):
+        for _ in range(ctx.n(1500, 300000)):
             r = RATES[int(rng.integers(len(RATES)))]
             b = [DIMS[int(rng.integers(len(DIMS)))] for _ in range(3)]
             if abs(b[0] * b[1] * b[2]) > 2 ** 17:
